@@ -28,6 +28,8 @@ def run(impl, which=("C05", "C06", "C17")):
             ex = [t for r, t in rep.get(rid, []) if r == 9]
             if not ex:
                 out.append(("expiry:ms-hold-never-expired", "hold with %d ms expiry drew no EXPRIED within 9 s" % e, {"request": rid, "output": txt}))
+            elif ex[0] < e - 2 and e >= 3000 and ex[0] >= (e // 1000) * 1000 - 2:
+                out.append(("expiry:ms-term-rounded-down-to-seconds", "hold with %d ms expiry ended after %d ms: terms >= 3000 ms are handed to the second wheel with deadline start-second + E/1000 + 1, which is up to E mod 1000 ms early when the hold started late in its second" % (e, ex[0]), {"request": rid, "output": txt}))
             elif ex[0] < e - 2:
                 out.append(("expiry:ms-early", "hold with %d ms expiry ended after %d ms" % (e, ex[0]), {"request": rid, "output": txt}))
             elif ex[0] > e + 3000:
@@ -40,6 +42,8 @@ def run(impl, which=("C05", "C06", "C17")):
             ex = [x for r, x in rep.get(rid, []) if r == 8]
             if not ex:
                 out.append(("timeout:ms-wait-never-answered", "wait with %d ms timeout drew no TIMEOUT within 9 s" % t, {"request": rid, "output": txt}))
+            elif ex[0] < t - 2 and t >= 3000 and ex[0] >= (t // 1000) * 1000 - 2:
+                out.append(("timeout:ms-term-rounded-down-to-seconds", "wait with %d ms timeout answered after %d ms: terms >= 3000 ms are handed to the second wheel with deadline start-second + T/1000 + 1, up to T mod 1000 ms early" % (t, ex[0]), {"request": rid, "output": txt}))
             elif ex[0] < t - 2:
                 out.append(("timeout:ms-early", "wait with %d ms timeout answered after %d ms" % (t, ex[0]), {"request": rid, "output": txt}))
             elif ex[0] > t + 3000:
